@@ -3,6 +3,7 @@ from .common import *
 from .pxcommon import *
 from . import c08
 from . import c16 as _c16
+from . import c15 as _c15
 
 ID = "C12"
 PROPS_FILES = ["Props/C12"]
@@ -47,12 +48,39 @@ def gen_cases(rng, tier):
         a_[14] = rng.choice([1, 2, 2])      # bilinear / bicubic
         a_[4] = 0                           # random contents
         cases.append((s_, a_))
+    # paints with a non-linear colour space (public fill_rect on short rows, aliased and with partially covered ends)
+    for i in range(400 if tier == "quick" else 6000):
+        n = rng.choice([1, 2, 3, 9, 17])
+        cs = rng.choice([0, 1, 1, 2, 3])
+        dst = []
+        for _ in range(n):
+            dst += list(rand_premul(rng))
+        col = rand_color(rng)
+        cases.append(("cs_px", [cs, rng.randrange(29), int(rng.random() < 0.5)] + list(col) + [n] + dst))
+    # gradients with translucent stops (the Premultiply stage is chosen from a cached 'all stops opaque' flag)
+    cases += [c for c in _c15.gen_cases(rng, tier) if c[0] == "grad_px"][:500 if tier == "quick" else 6000]
     return cases
 
 
 def oracle(suite, args, out):
     if out.startswith(("PANIC", "CRASH", "HANG")):
         return "implementation did not return: " + out[:200]
+    if suite == "cs_px":
+        o = ints(out)
+        if len(o) < 4 or o[0] < 0:
+            return None
+        for k in range(len(o) // 4):
+            r_, g_, b_, a_ = o[4 * k:4 * k + 4]
+            if max(r_, g_, b_) > a_:
+                what = "pixel %d = %r is not premultiplied after a fill_rect with colour space %s, %s, colour %r" % (
+                    k, (r_, g_, b_, a_), ["Linear", "Gamma2", "SimpleSRGB", "FullSRGBGamma"][args[0] % 4], MODES[args[1] % 29], tuple(args[3:7]))
+                return ("COLORSPACE: " + what) if args[0] % 4 != 0 else what
+        return None
+    if suite == "grad_px":
+        o = ints(out)
+        if len(o) >= 11 and o[9] == 0 and o[10] > 0:
+            return "%d pixels are not premultiplied after a gradient draw" % o[10]
+        return None
     if suite == "pat_px":
         o = ints(out)
         if len(o) >= 11 and o[3] > 0:
@@ -71,13 +99,27 @@ def oracle(suite, args, out):
     return None
 
 
+def known_class(suite, args, out, what):
+    if suite == "cs_px" and what.startswith("COLORSPACE"):
+        return "C12-nonlinear-colorspace-premul"
+    return None
+
+
 def relation(suite, args, mo, io):
+    if suite == "cs_px":
+        return mo.strip() == "-9"
+    if suite == "grad_px":
+        return _c15.relation(suite, args, mo, io)
     if suite == "pat_px":
         return mo == io or mo.strip() == "-9"
     return c08.relation(suite, args, mo, io)
 
 
 def nontrivial_tag(suite, args, out):
+    if suite == "cs_px":
+        return "cs%d" % (args[0] % 4) if out and out[0].isdigit() else None
+    if suite == "grad_px":
+        return _c15.nontrivial_tag(suite, args, out)
     if suite == "pat_px":
         return _c16.nontrivial_tag(suite, args, out)
     return c08.nontrivial_tag(suite, args, out)
